@@ -18,6 +18,7 @@ import (
 type c19Setup struct {
 	w          *world.World
 	x, y, z    world.PodSpec
+	tk, tu     world.PodSpec // pods of a scalable CRD kind / of a kind no CRD describes
 	zOld       []world.Event
 	dpReserve  bool
 	altConfig  string
@@ -34,6 +35,12 @@ func c19Prepare(w *world.World) *c19Setup {
 	w.CreatePod(s.x)
 	w.CreatePod(s.y)
 	w.CreatePod(s.z)
+	w.AddCRD("TApp", "apps.tkestack.io", "v1", "tapps")
+	s.tk = world.PodSpec{Name: "t-0", NS: "ns", OwnerKind: "TApp", OwnerName: "t", Policy: "immutable"}
+	s.tu = world.PodSpec{Name: "f-0", NS: "ns", OwnerKind: "Frob", OwnerName: "f", Policy: "immutable"}
+	w.CreatePod(s.tk)
+	w.CreatePod(s.tu)
+	_, _ = w.Filter(s.tk.Key()) // warms the CRD key cache for the known kind
 	mustSchedule(w, s.z.Key())
 	_, _ = w.Filter(s.y.Key()) // y is filtered, its Bind is one of the concurrent entry points
 	w.DeletePod(s.z.Key())
@@ -48,14 +55,18 @@ func c19Entries(s *c19Setup) map[string]func() {
 	w := s.w
 	py := w.Pods[s.y.Key()]
 	return map[string]func(){
-		"filter":  func() { _, _ = w.Filter(s.x.Key()) },
-		"bind":    func() { _ = w.Bind("ns", s.y.Name, string(py.UID), "n1") },
-		"unbind":  func() { deliverAll(w, s.zOld)() },
-		"resync":  func() { _ = w.Resync(); w.SyncPodIPs() },
-		"release": func() { _, l := w.APIList("size=100"); w.APIRelease(l.Content) },
-		"list":    func() { _, _ = w.APIList("keyword=a&size=2&page=1") },
-		"pool":    func() { w.PoolPost("pl", 2, true) },
-		"reload":  func() { w.ConfigMap = s.altConfig; _ = w.Reload() },
+		"filter": func() { _, _ = w.Filter(s.x.Key()) },
+		// pods of custom workload kinds: the release-policy check asks the CRD key cache (hit for the known kind; a kind
+		// no CRD describes is never cached and re-populates the cache on every request)
+		"filter-crd-known":   func() { _, _ = w.Filter(s.tk.Key()) },
+		"filter-crd-unknown": func() { _, _ = w.Filter(s.tu.Key()) },
+		"bind":               func() { _ = w.Bind("ns", s.y.Name, string(py.UID), "n1") },
+		"unbind":             func() { deliverAll(w, s.zOld)() },
+		"resync":             func() { _ = w.Resync(); w.SyncPodIPs() },
+		"release":            func() { _, l := w.APIList("size=100"); w.APIRelease(l.Content) },
+		"list":               func() { _, _ = w.APIList("keyword=a&size=2&page=1") },
+		"pool":               func() { w.PoolPost("pl", 2, true) },
+		"reload":             func() { w.ConfigMap = s.altConfig; _ = w.Reload() },
 		"collect": func() {
 			ch := make(chan prometheus.Metric, 64)
 			w.Plugin.GetIpam().Collect(ch)
@@ -117,7 +128,11 @@ func c19IPAMScenarios(tier string) []*Scenario {
 			out = append(out, mk([]string{names[i], names[j]}))
 		}
 	}
-	triples := [][]string{{"filter", "bind", "unbind"}, {"filter", "resync", "reload"}, {"bind", "release", "resync"}, {"pool", "filter", "preempt"}, {"reload", "collect", "bind"},
+	for _, pr := range [][]string{{"filter-crd-known", "filter-crd-unknown"}, {"filter-crd-unknown", "filter-crd-unknown"}, {"filter-crd-known", "filter-crd-known"},
+		{"filter-crd-unknown", "resync"}, {"filter-crd-known", "reload"}, {"filter-crd-unknown", "bind"}} {
+		out = append(out, mk(pr))
+	}
+	triples := [][]string{{"filter", "bind", "unbind"}, {"filter-crd-known", "filter-crd-unknown", "filter-crd-known"}, {"filter", "resync", "reload"}, {"bind", "release", "resync"}, {"pool", "filter", "preempt"}, {"reload", "collect", "bind"},
 		{"fipevents", "filter", "reload"}, {"bind-cache-miss", "filter", "preempt"}, {"unbind", "release", "list"}}
 	for _, t := range triples {
 		sc := mk(t)
@@ -136,7 +151,7 @@ func init() {
 		Assume: append([]string{"happens-before monitor inside the cooperative scheduler: vector clocks per thread, release->acquire edges from the sync/keymutex shims, spawn edges; monitored locations are the shared fields named in the property " +
 			"(allocation tables and pool list, node-subnet cache, last configuration text, CRD key/informer caches, per-network configuration maps incl. the maps handed to requests, host-port table, policy list), instrumented syntactically by field name",
 			"accesses through local aliases of those maps and memory outside the listed fields are not monitored; the Go memory model below sequential consistency is not modelled"}, assumeIPAM...),
-		Rule: "all pairs (and 8 triples) of 13 galaxy-ipam entry points on one shared plugin instance, and concurrent CNI requests / policy events on one galaxy daemon instance; stateless DFS over all schedules within the preemption bound with the happens-before monitor on in every execution; " +
+		Rule: "all pairs (and 9 triples) of 13 galaxy-ipam entry points plus pairs with filters for pods of custom (CRD) workload kinds, on one shared plugin instance, and concurrent CNI requests / policy events on one galaxy daemon instance; stateless DFS over all schedules within the preemption bound with the happens-before monitor on in every execution; " +
 			"a reported race, a deadlock or a panic is a violation; distinct = distinct final states; non-trivial = at least two threads wrote",
 		Jobs: func(tier string) []Job {
 			var jobs []Job
